@@ -25,8 +25,11 @@ Class(m) ==
   CASE m.k \in {"WELCOME", "GOODBYE", "ABORT", "CLOSED"} -> "sess"
     [] m.k \in {"SUBSCRIBED", "UNSUBSCRIBED", "PUBLISHED"} -> "pubsub"
     [] m.k = "EVENT" -> IF IsWampURI(m.v) THEN "meta" ELSE "pubsub"
-    [] m.k = "ERROR" -> IF m.a \in {T_SUBSCRIBE, T_UNSUBSCRIBE, T_PUBLISH} THEN "pubsub" ELSE "rpc"
-    [] m.k \in {"REGISTERED", "UNREGISTERED", "INVOCATION", "RESULT", "INTERRUPT"} -> "rpc"
+    [] m.k = "ERROR" -> IF m.a \in {T_SUBSCRIBE, T_UNSUBSCRIBE, T_PUBLISH} THEN "pubsub"
+                        ELSE IF m.a \in {T_CALL, T_CANCEL} THEN "rpcreply" ELSE "rpcroute"
+    [] m.k = "RESULT" -> "rpcreply"
+    [] m.k \in {"REGISTERED", "UNREGISTERED", "INVOCATION"} -> "rpcroute"
+    [] m.k = "INTERRUPT" -> "rpcintr"
     [] OTHER -> "other"
 
 \* a logged message as a spec message (lists of pairs become sets)
@@ -35,7 +38,12 @@ NormLog(m) == [m EXCEPT !.d = Rng(m.d), !.pd = Rng(m.pd), !.ids = Rng(m.ids)]
 \* the `procedure' detail of an INVOCATION is compared for pattern-based
 \* registrations only (the property speaks of nothing else)
 ExactRegIds == {regs[k].id : k \in {kk \in DOMAIN regs : kk[2] = "exact"}}
-Canon(m) == IF m.k = "INVOCATION" /\ m.a \in ExactRegIds THEN [m EXCEPT !.w = <<>>] ELSE m
+\* identity details of EVENT / INVOCATION are compared by the checks that have
+\* the class "details" (C12); the others only look at routing and payload
+Canon(m) ==
+  LET m1 == IF m.k = "INVOCATION" /\ m.a \in ExactRegIds THEN [m EXCEPT !.w = <<>>] ELSE m
+  IN IF "details" \notin Classes /\ m.k \in {"EVENT", "INVOCATION"}
+     THEN [m1 EXCEPT !.d = {p \in @ : p[1] \in {"receive_progress", "timeout", "progress"}}] ELSE m1
 
 Proj(q) == SelectSeq(q, LAMBDA m : Class(m) \in Classes \/ Class(m) = "other")
 
@@ -71,9 +79,10 @@ Matches(o, r) ==
 
 Check(o, r) ==
   IF Explain
-  THEN Matches(o, r) \/ PrintT(<<"MISMATCH", l, r.scn, "expected",
-                                 [s \in DOMAIN o |-> Proj(SpecFor(o, s))],
-                                 "logged", [i \in DOMAIN r.out |-> <<r.out[i].s, Proj(LoggedFor(r, r.out[i].s))>>]>>)
+  THEN Matches(o, r) \/ PrintT(<<"MISMATCH", ToJson(
+           [line |-> l, scn |-> r.scn,
+            expected |-> [s \in DOMAIN o |-> Proj(SpecFor(o, s))],
+            logged   |-> [i \in DOMAIN r.out |-> [s |-> r.out[i].s, m |-> Proj(LoggedFor(r, r.out[i].s))]]])>>)
   ELSE Matches(o, r)
 
 \* --------------------------------------------------------------------------
@@ -129,9 +138,23 @@ IsEvent(e) == l <= Len(TraceLog) /\ TraceLog[l].ev = e /\ l' = l + 1
 TrReset == /\ IsEvent("reset")
            /\ Commit(StateOf(TraceLog[l].cfg))
 
+\* C05: the verif snapshot (table sizes relative to the sizes right after router
+\* start, router goroutines relative to the count right after start) against
+\* the specification's tables.  At idle everything must be back at the baseline.
+SnapOf(r, key) == LET hit == {i \in DOMAIN r.snap : r.snap[i].k = key} IN
+                  IF hit = {} THEN -1 ELSE r.snap[CHOOSE i \in hit : TRUE].n
+SnapOK(r) ==
+  r.in.op = "snap" =>
+    /\ SnapOf(r, "unavailable") = -1
+    /\ SnapOf(r, "realm.clients") = Cardinality(Joined(Cur))
+    /\ (Joined(Cur) = {} /\ DOMAIN calls = {}) =>
+          /\ \A i \in DOMAIN r.snap : r.snap[i].n = 0
+          /\ r.gor = 0
+
 TrStep == /\ IsEvent("step")
           /\ LET r == TraceLog[l] IN
                /\ Apply(r.in, r.bind)
+               /\ Explain \/ "snap" \notin Classes \/ SnapOK(r)
                /\ now' = r.now            \* the virtual clock is part of the observation
                /\ r.badids = 0            \* every id seen so far lies in [1, 2^53] (C19)
                /\ Check(out', r)
